@@ -337,6 +337,12 @@ def prop(case):
                         break
             except Endless:
                 out.append(viol('decoder_does_not_terminate', 'C04:endless:transport', backend=var.name))
+            except Exception as e:
+                is_repo, sig = common.repo_exception_sig(e)
+                if not is_repo:
+                    raise
+                # the receive loop of an endpoint would die here: a delimited frame must never make the transport raise
+                out.append(viol('decoder_raised', 'C04:transport_raised:%s' % type(e).__name__, backend=var.name, exc=repr(e)))
         # message mode: one item per message
         parser = P.FrameParser()
         for it, b in zip(items, bodies):
